@@ -87,7 +87,7 @@ def apply(spec, p, rng):
 
 class C02(ProgProp):
     id = "C02"
-    report = ("C02",)
+    report = ("C02", "MODEL")
     group = 8
     variants_quick = 2
     variants_thorough = 4
